@@ -124,12 +124,16 @@ func Sum(b []byte) int {
 }
 
 // Build serialises 8, 9 (computed), then rest (which should start with 35), then 10 (computed).
-func Build(beginString string, rest []Field) []byte {
+func Build(beginString string, rest []Field) []byte { return BuildPadded(beginString, rest, 0) }
+
+// BuildPadded is Build with BodyLength written in at least width digits (zero-padded, as encoders
+// with fixed-width length fields write it).
+func BuildPadded(beginString string, rest []Field, width int) []byte {
 	body := Join(rest)
 	var buf bytes.Buffer
 	buf.WriteString("8=" + beginString)
 	buf.WriteByte(SOH)
-	buf.WriteString("9=" + strconv.Itoa(len(body)))
+	buf.WriteString("9=" + fmt.Sprintf("%0*d", width, len(body)))
 	buf.WriteByte(SOH)
 	buf.Write(body)
 	cs := Sum(buf.Bytes())
